@@ -522,6 +522,18 @@ impl VisS {
     pub fn visit_bytes(self, v: &Vec<u8>) -> (r: Result<VisValue, Error>) ensures r is Ok ==> r->Ok_0.via@ == VisCall::Bytes(v@) { unimplemented!() }
     #[verifier::external_body]
     pub fn visit_byte_buf(self, v: Vec<u8>) -> (r: Result<VisValue, Error>) ensures r is Ok ==> r->Ok_0.via@ == VisCall::ByteBuf(v@) { unimplemented!() }
+    /// a visitor that accepts whatever it is given (serde::de::IgnoredAny)
+    pub uninterp spec fn total(self) -> bool;
+    #[verifier::external_body]
+    pub fn visit_borrowed_bytes(self, v: &[u8]) -> (r: Result<VisValue, Error>) ensures r is Ok ==> r->Ok_0.via@ == VisCall::Bytes(v@), self.total() ==> r is Ok { unimplemented!() }
+    #[verifier::external_body]
+    pub fn visit_bytes_of(self, v: &[u8]) -> (r: Result<VisValue, Error>) ensures r is Ok ==> r->Ok_0.via@ == VisCall::Bytes(v@), self.total() ==> r is Ok { unimplemented!() }
+}
+/// the ONE contract of Read::forward_read_bytes_with_hint, checked against both readers
+pub open spec fn bytes_forwarded<R: Read>(old_r: R, new_r: R, len: usize, visitor: VisS, r: Result<VisValue, Error>) -> bool {
+    &&& (r is Ok ==> r->Ok_0.via@ is Bytes && r->Ok_0.via@->Bytes_0.len() == len && took(old_r, new_r, r->Ok_0.via@->Bytes_0))      // [C20.reader.forward-exact] exactly the next `len` octets are shown to the visitor and exactly they are consumed
+    &&& (old_r.reliable() && len <= old_r.unread().len() && visitor.total() ==> r is Ok)                                            // [C05.reader.available-bytes-are-delivered]
+    &&& (len > old_r.unread().len() ==> r is Err)                                                                                   // [C04.reader.short-input-is-an-error]
 }
 /// the ONE contract of Read::forward_read_byte_buf, checked against both readers
 pub open spec fn byte_buf_forwarded<R: Read>(old_r: R, new_r: R, r: Result<VisValue, Error>) -> bool {
@@ -555,6 +567,33 @@ impl IoReader {
 //@@ spec
     requires bounded(*old(self)),
     ensures byte_buf_forwarded(*old(self), *final(self), r),     // [C10.reader.byte-buf-same-entry-point] [C20.scan.exact] (spelled out in byte_buf_forwarded above)
+//@@ end
+}
+
+impl<'s> SliceReader<'s> {
+//@@ fn file=serde_amqp/src/read/sliceread.rs impl=`impl<'s> Read<'s> for SliceReader<'s>` name=forward_read_bytes_with_hint id=SliceReader::forward_read_bytes_with_hint
+//@@ qmark
+//@@ generics
+//@@ nowhere
+//@@ param visitor : VisS
+//@@ ret Result<VisValue, Error>
+//@@ spec
+    requires bounded(*old(self)),
+    ensures bytes_forwarded(*old(self), *final(self), len, visitor, r), final(self).wf(),     // [C20.reader.forward-exact] (spelled out in bytes_forwarded above)
+//@@ end
+}
+impl IoReader {
+//@@ fn file=serde_amqp/src/read/ioread.rs impl=`~Read<'de>forIoReader<R>` name=forward_read_bytes_with_hint id=IoReader::forward_read_bytes_with_hint
+//@@ qmark
+//@@ generics
+//@@ nowhere
+//@@ param visitor : VisS
+//@@ ret Result<VisValue, Error>
+//@@ subst `visitor.visit_bytes(&self.buf[..len])` => `visitor.visit_bytes_of(vstd::slice::slice_subrange(self.buf.as_slice(), 0, len))` rule=R9
+//@@ subst `self.buf.drain(..len)` => `vec_drain_front(&mut self.buf, len)` rule=R9
+//@@ spec
+    requires bounded(*old(self)),
+    ensures bytes_forwarded(*old(self), *final(self), len, visitor, r), final(self).wf(),     // [C20.reader.forward-exact] (spelled out in bytes_forwarded above)
 //@@ end
 }
 
@@ -845,8 +884,15 @@ pub open spec fn valid_array8_header(u: Seq<u8>) -> bool {
     u.len() >= 3 && u[0] == 0xe0 && ((u[2] == 0 && u[1] >= 1 && u.len() >= 2 + u[1]) || (u[2] > 0 && u[1] >= 2 && u.len() >= 2 + u[1] && amqp_ctor(u[3])))
 }
 
+/// `self.reader.forward_read_bytes_with_hint(n, de::IgnoredAny)`: the contract of Read::forward_read_bytes_with_hint checked against both readers above (bytes_forwarded), with a visitor that accepts anything
+#[verifier::external_body]
+pub fn reader_skip_bytes<R: Read>(reader: &mut R, n: usize) -> (r: Result<VisValue, Error>)
+    requires bounded(*old(reader)),
+    ensures exists|v: VisS| v.total() && #[trigger] bytes_forwarded(*old(reader), *final(reader), n, v, r), final(reader).wf(), final(reader).reliable() == old(reader).reliable(),
+{ unimplemented!() }
 impl<R: Read> Deserializer<R> {
 //@@ fn file=serde_amqp/src/de.rs impl=`~de::Deserializer<'de>for&mutDeserializer<R>` name=deserialize_seq
+//@@ subst `self.reader .forward_read_bytes_with_hint(rest, de::IgnoredAny)` => `reader_skip_bytes(&mut self.reader, rest)` rule=R9
 //@@ selfmut
 //@@ qmark
 //@@ generics
